@@ -19,6 +19,8 @@ var c03Templates = []string{
 	"x := 1 + 2 * y",
 	"x = y[1:2]",
 	"if a > b { a } else { b }",
+	"if a { 1 } else if b { 2 }",
+	"if a { 1 } else if\n b { 2 }",
 	"for i := 0; i < n; i++ { s += i }",
 	"for i, v := range l { print(v) }",
 	"for i := 0; ; i++ { break }",
